@@ -181,18 +181,31 @@ def run(ctx):
     ctx.assumptions = ["the file does not change between construction and sending", "boundary length 13, content type " + CT]
     wd = tlc.workdir_for("c02")
     tlc.sany(wd + "/FileResponse.tla")
-    K = {"Cases": frozenset(common_rec(c) for c in cs)}
     cfg = ["SPECIFICATION Spec", "CHECK_DEADLOCK FALSE"] + ["INVARIANT " + i for i in INV]
-    tlc.write_mc(wd, "MC_FileResponse", "FileResponse", constants=K, cfg_lines=cfg)
-    res = tlc.run_tlc(wd, "MC_FileResponse", dump=True, heap="8g")
-    ctx.add_tlc("FileResponse", res, ctx.bounds)
-    if res.violated:
-        raise common.MachineryError("FileResponse.tla: " + tlc.describe(res))
-    tlc.check_coverage(res, ["Decide", "EmitStep", "Finish"])
-    g = graph.Graph.load(res.dot)
     files = Files()
     n = 0
+    # TLC handles a constant set of a few thousand case records well, tens of thousands badly: one run per slice
+    SLICE = 7000
     try:
+        for off in range(0, len(cs), SLICE):
+            K = {"Cases": frozenset(common_rec(c) for c in cs[off:off + SLICE])}
+            name = "MC_FileResponse_%d" % (off // SLICE)
+            tlc.write_mc(wd, name, "FileResponse", constants=K, cfg_lines=cfg)
+            res = tlc.run_tlc(wd, name, dump=True, heap="8g")
+            ctx.add_tlc("FileResponse[%d..%d)" % (off, min(off + SLICE, len(cs))), res, {"cases": len(K["Cases"])})
+            if res.violated:
+                raise common.MachineryError("FileResponse.tla: " + tlc.describe(res))
+            tlc.check_coverage(res, ["Decide", "EmitStep", "Finish"])
+            g = graph.Graph.load(res.dot)
+            n = replay(ctx, g, files, n)
+            os.unlink(res.dot)
+    finally:
+        shutil.rmtree(files.dir, True)
+    ctx.exhaustive = True
+
+
+def replay(ctx, g, files, n):
+    if True:
         for nid in g.terminal():
             st = g.state(nid)
             if st["pc"] != "done":
@@ -267,9 +280,7 @@ def run(ctx):
                 ctx.nontriv(tuple(sorted((k, str(v)) for k, v in case.items())))
             if n in (3, 400, 4000):
                 ctx.sample({"case": case, "status": st["status"], "content_length": st["clen"], "events": [[e["n"], e["a"], e["more"]] for e in st["ev"]]})
-    finally:
-        shutil.rmtree(files.dir, True)
-    ctx.exhaustive = True
+    return n
 
 
 def common_rec(c):
